@@ -237,6 +237,18 @@ def c02_witnesses(tier='quick'):
             f'`validate({txt})`: built-in rules next to with/error would be dropped silently; refused')
     add('mixed-twin-custom', pre2 + '#[nutype(validate(with = chk, error = E))]\npub struct T(i32);\n', 'pass', 'twin: with + error alone is accepted')
     add('mixed-twin-builtin', pre2 + '#[nutype(validate(greater_or_equal = 0, less_or_equal = 100))]\npub struct T(i32);\n', 'pass', 'twin: the built-in rules alone are accepted')
+    # stray tokens / missing separators must be refused, not skipped
+    for wid, attr in (('stray-after-bound', 'validate(less = 10 20)'), ('stray-ident-after-bound', 'validate(less = 10 unchecked)'),
+                      ('missing-comma-validators', 'validate(greater = 1 less = 10)'), ('missing-comma-derive', 'derive(Debug Clone)'),
+                      ('missing-comma-blocks', 'validate(less = 10) derive(Debug)'), ('double-comma', 'validate(less = 10,, greater = 1)'),
+                      ('stray-after-default', 'derive(Default), default = 1 2'), ('bound-without-value', 'validate(less)'),
+                      ('bound-with-empty-value', 'validate(less = )'), ('flag-with-parens', 'const_fn()'), ('validate-as-flag', 'validate'),
+                      ('sanitize-assign', 'sanitize = with'), ('nested-validate', 'validate(validate(less = 10))'),
+                      ('value-on-flag-validator', 'validate(finite = true)')):
+        inner = 'f64' if 'finite' in attr else 'i32'
+        add('syntax-' + wid, f'#[nutype({attr})]\npub struct T({inner});\n', {'fail': None, 'msg': None}, f'malformed attribute `{attr}` is refused')
+    add('syntax-twin', '#[nutype(validate(greater = 1, less = 10), derive(Debug, Clone, Default), default = 2, const_fn)]\npub struct T(i32);\n', 'pass',
+        'twin: the well-formed spelling of the same attributes is accepted')
     # literal-then-operator bounds are refused, not altered
     add('lit-then-op', '#[nutype(validate(less = 1 << 4))]\npub struct T(i32);\n', {'fail': None, 'msg': None}, '`less = 1 << 4` (literal followed by an operator) is refused, not read as `less = 1`')
     add('lit-then-op-twin', '#[nutype(validate(less = (1 << 4)))]\npub struct T(i32);\n', 'pass', 'twin: the parenthesised expression is accepted')
